@@ -283,6 +283,7 @@ func (e *VendorError) Len() uint16 {
 }
 
 func (e *VendorError) MarshalBinary() (data []byte, err error) {
+	e.Header.Length = e.Len()
 	data = make([]byte, int(e.Len()))
 	n := 0
 
@@ -327,6 +328,7 @@ func NewBundleError() *VendorError {
 	e := new(VendorError)
 	e.ErrorMsg = NewErrorMsg()
 	e.Header = NewOfp13Header()
+	e.Header.Type = Type_Error
 	e.Type = ET_EXPERIMENTER
 	e.ExperimenterID = ONF_EXPERIMENTER_ID
 	return e
